@@ -132,6 +132,11 @@ def rand_grammar(rng, max_t=5, max_n=5, max_alt=3, max_len=4, p_prec=0.5, p_lit=
             line, pool = pool[:k], pool[k:]
             prec.append((rng.choice(["left", "right", "nonassoc", "precedence"]), line))
     # a rule-level %prec symbol must have a precedence declaration or yaccgo dereferences nil
+    # a token may be listed in two precedence lines: the LAST declaration counts (as in yacc)
+    if len(prec) >= 2 and rng.random() < 0.25:
+        again = rng.choice(prec[0][1])
+        kind = rng.choice(["left", "right", "nonassoc"])
+        prec.append((kind, [again]))
     # `%prec X` where X carries no precedence is legal: the rule then has NO precedence (its tokens' levels
     # do not count); X must be a symbol of the grammar, so a literal is only used when it occurs in some rule
     declared = {s for _, ss in prec for s in ss}
@@ -284,6 +289,16 @@ CORPUS = {
     # reduce/reduce conflict between two rules of EQUAL precedence and %left: the winner depends on the order
     # in which the candidates are met (the order must not come from a map)
     "rr_equal_prec": "%token ID NUM\n%left NAME\n%start prog\n%%\nprog : | prog stmt ;\nstmt : tn ';' | tn vn ';' | vn ';' | vn '=' NUM ';' ;\ntn : ID %prec NAME ;\nvn : ID %prec NAME ;\n%%\n",
+    # a user nonterminal called `start` (the documented default start symbol; also the name of the internal
+    # augmented symbol), nested and right-recursive
+    "start_named": "%token A B C\n%start start\n%%\nstart : A start B | C | A item ;\nitem : C start ;\n%%\n",
+    # a non-nullable nonterminal whose rule ENDS in a nullable one (`P : A Q ; Q : | B`), in a context where a
+    # wrongly nullable P adds a lookahead that collides (reduce/reduce, and shift/reduce under precedence)
+    "nullable_tail_rr": "%token X T A B\n%start S\n%%\nS : C P T | D T ;\nC : X ;\nD : X ;\nP : A Q ;\nQ : | B ;\n%%\n",
+    "nullable_tail_prec": "%token X T A B\n%left T\n%left X\n%start S\n%%\nS : C P T | X T B ;\nC : X ;\nP : A Q ;\nQ : | B ;\n%%\n",
+    # a rule with 257 right-hand-side symbols (dot positions beyond 255)
+    "long_rule_257": "%token T X Y Z\n%start S\n%%\nS : Z | " + "T " * 256 + "B ;\nB : X | Y ;\n%%\n",
+    "long_rule_257b": "%token T X Y\n%start S\n%%\nS : " + "T " * 256 + "B ;\nB : X | Y ;\n%%\n",
     # NQLALR-separating family (Bermudez/Logothetis style)
     "nqlalr": "%token A B C D G\n%start S\n%%\nS : A X C | A Y D | B X D | B Y C | G X G ;\nX : Z ;\nY : Z ;\nZ : ;\n%%\n",
 }
@@ -439,7 +454,8 @@ def file_spec(rng, small=False):
         elif c < 0.7:
             acts.append("{ $$ = %d }" % rng.randrange(100))
         else:
-            acts.append(rng.choice(["{ x := map[int]int{}; _ = x }", "{\n\t// note\n\t$$ = $$\n}", "{ if true { $$ = $$ } }", "{ /* c */ }"]))
+            acts.append(rng.choice(["{ x := map[int]int{}; _ = x }", "{\n\t// note\n\t$$ = $$\n}", "{ if true { $$ = $$ } }", "{ /* c */ }",
+                                    "{ u := \"http://example.org/\" ; _ = u }", "{ if len(\"a//b\") > 0 { $$ = $$ } }"]))
     fs["actions"] = acts
     return fs
 
